@@ -87,6 +87,10 @@ def run_history(ctx, R, rng, cache, nops, script=None):
                 arg = rng.randint(0, 12)
             elif op == 'getitem':
                 arg = rng.randint(-8, 25)
+                if rng.random() < .3:
+                    # slices, written as [start, stop, step]; a stop of 0 is an empty slice, not "no upper bound"
+                    arg = rng.choice([[None, 0, None], [0, 0, None], [2, 0, None], [None, rng.randint(0, 12), None], [rng.randint(0, 5), None, rng.choice([None, 2, 3])],
+                                      [-3, None, None], [1, -1, 2]])
             elif op in ('contains', 'after', 'before'):
                 L0 = model_list(m)
                 # members, explicit dates (listed or excluded) and instants of the exclusion rules are the interesting arguments
@@ -162,7 +166,10 @@ def run_history(ctx, R, rng, cache, nops, script=None):
             elif op == 'count':
                 got, exp = outcome(rs.count), ('ok', len(L))
             elif op == 'getitem':
-                got, exp = outcome(lambda: rs[arg]), U.m_getitem(L, arg)
+                idx = slice(*arg) if isinstance(arg, list) else arg
+                got, exp = outcome(lambda: rs[idx]), U.m_getitem(L, idx)
+                if isinstance(arg, list):
+                    ctx.count('slice_queries')
             elif op == 'contains':
                 got, exp = outcome(lambda: f(arg[0]) in rs), ('ok', f(arg[0]) in L)
             elif op == 'after':
